@@ -59,8 +59,7 @@ void COTPdoInit(CO_TPDO *pdo, CO_NODE *node)
     COTPdoMapClear(node->TMap);
     for (num = 0; num < CO_TPDO_N; num++) {
         pdo[num].Node       = node;
-        pdo[num].EvTmr      = -1;
-        pdo[num].InTmr      = -1;
+        /* keep timer ids: running timers are deleted in COTPdoReset() */
         pdo[num].Identifier = CO_TPDO_COBID_OFF;
         pdo[num].ObjNum     = 0;
         for (on = 0; on < 8; on++) {
